@@ -39,7 +39,19 @@ fn res_str<T: std::fmt::Debug>(r: &std::io::Result<T>) -> String {
 /// Run one history on a fresh pair; returns a description of the first
 /// divergence.
 fn run_history<T: Alignment>(ops: &[Op], stats: &mut (u64, u64)) -> Option<String> {
-    let mut a = AlignedCursor::<T>::new();
+    run_history_cap::<T>(ops, stats, None)
+}
+
+/// `cap`: start from `AlignedCursor::with_capacity(cap)` instead of `new()`
+/// (a capacity is not observable: the model is the same empty cursor).
+fn run_history_cap<T: Alignment>(ops: &[Op], stats: &mut (u64, u64), cap: Option<usize>) -> Option<String> {
+    let mut a = match cap {
+        Some(c) => AlignedCursor::<T>::with_capacity(c),
+        None => AlignedCursor::<T>::new(),
+    };
+    if a.len() != 0 || a.position() != 0 || !a.is_empty() || !a.as_bytes().is_empty() {
+        return Some(format!("fresh cursor (capacity {:?}) is not empty", cap));
+    }
     let mut m: Cursor<Vec<u8>> = Cursor::new(Vec::new());
     for (step, op) in ops.iter().enumerate() {
         stats.0 += 1;
@@ -221,7 +233,11 @@ fn run_align<T: Alignment>(cfg: &Cfg, log: &mut Log, label: &str, part: usize) {
         log.count("histories_random", 1);
         log.count("evaluations", 1);
         log.distinct(0xF << 60 | (part as u64) << 56 | (cfg.shard as u64) << 40 | i as u64);
-        if let Some(d) = run_history::<T>(&ops, &mut stats) {
+        let cap = if i % 2 == 1 { Some(r.below(300)) } else { None };
+        if cap.is_some() {
+            log.count("histories_with_capacity", 1);
+        }
+        if let Some(d) = run_history_cap::<T>(&ops, &mut stats, cap) {
             let cut = d.split(' ').nth(1).and_then(|s| s.parse::<usize>().ok()).unwrap_or(ops.len() - 1);
             report(log, &ops[..=cut.min(ops.len() - 1)], d);
         }
